@@ -549,6 +549,9 @@ class SeriesWorld(World):
                                            "variants": self._gen_variants(rng, m.nv)}}
         if how == "props":
             return {"op": "read", "args": {"h": h, "how": how}}
+        if how in ("getitem", "get_data") and rng.random() < 0.3:
+            # the whole series, the way it is usually read: x.get_data(), x[...]
+            return {"op": "read", "args": {"h": h, "how": how, "dates": {"k": "all"}, "variants": None, "bare": rng.random() < 0.5}}
         return {"op": "read", "args": {"h": h, "how": how, "dates": self._gen_dates(rng, m),
                                        "variants": self._gen_variants(rng, m.nv)}}
 
@@ -703,7 +706,10 @@ class SeriesWorld(World):
     def _gen_scribble(self, actor, val, rng):
         if not self.caller:
             return None
-        return {"op": "scribble", "args": {"i": rng.randrange(len(self.caller)), "v": rng.choice([12345.5, -777.0, None])}}
+        i = len(self.caller) - 1 if rng.random() < 0.5 else rng.randrange(len(self.caller))
+        if rng.random() < 0.3:
+            return {"op": "scribble", "args": {"span_of": self._pick(rng, actor, lambda o: o.model.lo is not None and o.model.n > 0), "k": rng.choice([-2, 1, 3])}}
+        return {"op": "scribble", "args": {"i": i, "v": rng.choice([12345.5, -777.0, None])}}
 
     def _gen_iter_open(self, actor, val, rng):
         if len(self.iters) >= 2:
@@ -1207,7 +1213,7 @@ class SeriesWorld(World):
                 if [int(p.serial) for p in per] != list(ts):
                     raise Violation("refine", opname, "", "", f"periods returned {[int(p.serial) for p in per]}, requested {list(ts)}")
             elif how == "get_data":
-                got = s.get_data(dr) if var_real is None else s.get_data(dr, var_real)
+                got = (s.get_data() if a.get("bare") else s.get_data(dr)) if var_real is None else s.get_data(dr, var_real)
                 self._cmp_read(opname, got, want)
                 if isinstance(got, np.ndarray) and got.size and np.shares_memory(got, s.data):
                     self.probes["read_returns_view"] += 1
@@ -1412,6 +1418,22 @@ class SeriesWorld(World):
     def _do_scribble(self, step, a):
         """The caller writes into an array of its own: one it passed to a constructor or to a write earlier, or one a read
         returned.  None of that is an operation on a series, so no series may change (constructors, writes and reads copy)."""
+        if "span_of" in a:
+            # the caller takes x.span (a Span is mutable) and shifts ITS span in place: the series keeps its periods
+            h = a["span_of"]
+            if h is None or h not in self.live:
+                return "skipped"
+            o = self.live[h]
+            sp = o.real.span
+            if sp is None or getattr(sp, "needs_resolve", False):
+                return "skipped"
+            sp.shift(a["k"])
+            self.probes["caller_shifted_span_it_got_from_series"] += 1
+            bad = conforms(o.real, Exp(o.model.freq, o.model.nv, o.model.cells), f"series {h} after the caller shifted the span it had been given")
+            if bad:
+                raise Violation(bad[0], "scribble.span", "", "", bad[1], handles=(h,))
+            self._isolation("scribble.span", "")
+            return "ok"
         if a["i"] >= len(self.caller):
             return "skipped"
         arr, how = self.caller[a["i"]]
